@@ -222,3 +222,44 @@ func TestAmtoolAgreement(t *testing.T) {
 		}
 	})
 }
+
+// TestRootAlwaysMatches: whatever the loader accepts, every label set must be routed to at least
+// one receiver; in particular a root route that carries matchers (legacy or new style) must either
+// be rejected by the loader or not restrict routing.
+func TestRootAlwaysMatches(t *testing.T) {
+	run := vf.Cur()
+	sub := run.Sub("root-always-matches", "generated trees whose ROOT route carries match / match_re / matchers (which would make it miss alerts) or nothing: if config.Load accepts the file, dispatch.Route.Match must return >=1 route for each of 24 label sets; non-trivial = the root was given a matcher; distinct by (config,label set)", 50)
+	n := run.N(400, 40000)
+	vf.Parallel(t, n, 16, func(t *testing.T, i int) {
+		r := sub.Rand(i)
+		spec := gen.RouteTree(r, gen.RouteOpt{MaxDepth: 2, MaxFanout: 3, Receivers: receivers, Legacy: true})
+		rooted := true
+		switch r.Intn(4) {
+		case 0:
+			spec.Match = map[string]string{"sev": "crit"}
+		case 1:
+			spec.MatchRE = map[string]string{"env": "p|s"}
+		case 2:
+			spec.Matchers = []model.Matcher{{Name: "team", Op: "=", Value: "x"}}
+		default:
+			rooted = false
+		}
+		y := configYAML(spec)
+		cfg, err := config.Load(y)
+		for _, l := range append(gen.LabelSets(r, 22), model.Labels{"zzz": "1"}, model.Labels{"alertname": "A"}) {
+			sub.Case(vf.Digest(y, l.Key()), rooted)
+			if err != nil {
+				continue
+			}
+			if len(dispatch.NewRoute(cfg.Route, nil).Match(toLS(l))) == 0 {
+				sub.Violation("alert-routed-to-no-receiver", map[string]any{"config": y, "labels": l})
+				return
+			}
+		}
+		if err != nil {
+			sub.Count("rejected_by_loader", 1)
+		} else {
+			sub.Count("accepted_by_loader", 1)
+		}
+	})
+}
